@@ -106,6 +106,23 @@ def cases(ctx):
                             nm = o.replace(">", " ").replace("<", " ").split()[0] if o else "top"
                             out.append(dict(family="loop.%s@%s%s" % (form, nm, "+fwdref" if fw else ""), L=L, n=n, input=doc.encode(), cfg=cfg, accept=(n <= L),
                                             count=("rect", expect_n + 2 + (1 if fw else 0)), how=how))
+            # ---- limits reached while a <specs> block is processed (templates are evaluated there for their side effects):
+            # exceeding a limit is final there too, a template within its limits is accepted
+            if n >= 1 and L <= 100:
+                cfg, pre, how = limit_cfg(rng, "loop", L)
+                small = max(0, min(2, L))
+                doc = ('<svg>%s<rect wh="1" id="first"/><specs><g id="dots" k="%d"><loop count="$k"><rect xy="0 0" wh="1"/></loop></g></specs>'
+                       '<reuse href="#dots" k="%d"/></svg>') % (pre, n, small)
+                out.append(dict(family="loop.template-default-in-specs", L=L, n=n, input=doc.encode(), cfg=cfg, accept=(n <= L), count=("rect", 1 + small), how=how))
+                cfg, pre, how = limit_cfg(rng, "var", L)
+                doc = '<svg>%s<specs><var v="%s"/><text id="t" text="t"/></specs><reuse href="#t" x="0" y="0"/></svg>' % (pre, "x" * n)
+                out.append(dict(family="var.in-specs", L=L, n=n, input=doc.encode(), cfg=cfg, accept=(n <= L), count=("text", 1), how=how))
+                if n >= 3:
+                    cfg, pre, how = limit_cfg(rng, "depth", L)
+                    if not (pre and L < 2):
+                        k = n - 3          # svg > specs > g*k > rect : depth = 3 + k
+                        doc = '<svg>%s<specs>%s<rect id="deep" wh="1"/>%s</specs><rect wh="2"/></svg>' % (pre, "<g>" * k, "</g>" * k)
+                        out.append(dict(family="depth.in-specs", L=L, n=n, input=doc.encode(), cfg=cfg, accept=(n <= L), how=how))
             # ---- variable length
             cfg, pre, how = limit_cfg(rng, "var", L)
             for form in ("literal", "concat"):
